@@ -158,7 +158,8 @@ pub fn run(ctx: &Ctx, rep: &mut Report) {
         }
         let mut rng = Rng::derive(ctx.seed, 0xC19, wi);
         rep.progress_idx(wi, "C19 scenario");
-        let dopts = DictOpts { max_entries: 30, ..DictOpts::default() };
+        // (every fourth system dictionary has no symbol POS: the POS that helper configurations like to name is then absent)
+        let dopts = DictOpts { max_entries: 30, no_symbol_pos: wi % 4 == 1, ..DictOpts::default() };
         let world = match guard(|| {
             let matrix = crate::dictgen::gen_matrix(&mut rng, &dopts);
             let mut sys = crate::dictgen::gen_system(&mut rng, &dopts, &matrix);
@@ -166,7 +167,7 @@ pub fn run(ctx: &Ctx, rep: &mut Report) {
             let nid = matrix.nid() as i64;
             // numeral-POS words so that numeral joining really happens (the CLI's -w must still report it)
             for c in "0123,.".chars() {
-                let p = if c == ',' || c == '.' { &pool[2] } else { &pool[1] };
+                let p = if c == ',' || c == '.' { if dopts.no_symbol_pos { &pool[0] } else { &pool[2] } } else { &pool[1] };
                 sys.entries.push(crate::model::Entry::simple(&c.to_string(), rng.range(0, nid - 1) as i16, rng.range(0, nid - 1) as i16, rng.range(0, 500) as i16, p));
             }
             let mut p = crate::scen::PluginOpts::random(&mut rng, &matrix, true);
